@@ -22,8 +22,9 @@ ASSUMPTIONS = [
     "for out-of-order arrival the reference is an interval [ops strictly earlier + own, ops fed so far not later]; exact when arrival is in time order",
     "float comparison with relative tolerance 1e-9",
 ]
-REQUIRED_CLAUSES = ["carry-conservation", "value-in-bounds", "exact-cumulative", "nonneg", "type-monotone", "unit", "normal-value-exists", "passthrough", "batching-invariance"]
-REQUIRED_FEATURES = {"three-batches-in-one-bucket": 5, "out-of-order": 5, "warmup-to-normal": 5, "runner-supplied": 5, "host-skew": 3}
+REQUIRED_CLAUSES = ["carry-conservation", "value-in-bounds", "exact-cumulative", "nonneg", "type-monotone", "unit", "normal-value-exists", "passthrough", "batching-invariance",
+                    "runner-throughput-reaches-sample", "passthrough-end-to-end"]
+REQUIRED_FEATURES = {"three-batches-in-one-bucket": 5, "out-of-order": 5, "warmup-to-normal": 5, "runner-supplied": 5, "host-skew": 3, "class-executor": 20, "runner-supplied-zero": 5}
 BUDGET = {
     "quick": {"cases": 160000, "seconds": 40},
     "thorough": {"cases": 1200000, "seconds": 600},
@@ -359,9 +360,14 @@ def shrink(case, clause):
 
 
 def run_shard(ctx):
+    from props import c06_exec
+
     i = 0
     while ctx.more():
-        one_case(ctx, ctx.case_rng(i))
+        if i % 150 == 75:
+            c06_exec.one_case(ctx, ctx.case_rng(f"exec{i}"))  # runner -> real executor -> real sampler -> real calculator (costs ~100 calculator cases)
+        else:
+            one_case(ctx, ctx.case_rng(i))
         i += 1
 
 
@@ -370,6 +376,11 @@ def classify(v):
 
 
 def replay(ctx, rec):
+    if rec["witness"].get("class") == "executor":
+        from props import c06_exec
+
+        c06_exec.one_case(ctx, None, explicit=rec["witness"]["case"])
+        return
     case = rec["witness"]["case"]
     meta = dict(case["meta"])
     meta["features"] = set(meta.get("features", []))
@@ -379,7 +390,8 @@ def replay(ctx, rec):
 MANIFEST = {
     "text": "Exploration: the real ThroughputCalculator is fed ~10^5 (quick) / ~10^6 (thorough) generated sample streams, each cut into successive batches "
     "(every sample its own batch, random cuts, >=3 batches inside one bucket, driver-tick cuts, out-of-order arrival across workers, host clock skew); every emitted value "
-    "is compared with an exact-Fraction reference (cumulative ops / elapsed). Holds on the executions produced, not beyond.",
+    "is compared with an exact-Fraction reference (cumulative ops / elapsed). One case in 150 sends a runner-supplied throughput (0 and 0.0 included) through the real executor and sampler "
+    "on a virtual clock and the real samples, cut into batches, through the real calculator. Holds on the executions produced, not beyond.",
     "note": "Trusts the reference (cumulative ops / elapsed, 30 lines), Python Fractions, and that time_period = absolute_time - task start as AsyncExecutor records it.",
     "technique": "runtime monitor: reference-model oracle + conservation invariant on the calculator's carry list + metamorphic batching relation over generated streams",
     "design_ref": "DESIGN.md section 4 C06",
